@@ -484,6 +484,33 @@ def _r7(model, res, E):
                               '%s computes %r: floor-division / modulo of floats act on the exact binary values (1 // 0.1 is 9.0), so a number that '
                               'is already a multiple of a decimal significance comes out one unit too low; the adjacent multiple must come from '
                               'floor/ceil of the true quotient' % (name, o.value), func=f.name)
+    # an omitted significance means 1: CEILING(x) and FLOOR(x) are CEILING(x, 1) and FLOOR(x, 1) on every trace
+    for name in ('CEILING', 'FLOOR'):
+        if name not in model.registry:
+            continue
+        m, f = model.registered(name)
+        try:
+            o1 = H.run_function(model, H.registry_func(model, name), lambda: [Sym('float', 'x')])
+            o2 = H.run_function(model, H.registry_func(model, name), lambda: [Sym('float', 'x'), Const(1)])
+        except Unmodelled as e:
+            res.ob('R7', name, 'default significance', True, 'undecided: %s' % e)
+            continue
+        if any(o.imprecise for o in o1 + o2):
+            res.ob('R7', name, 'default significance', True, 'undecided (unmodelled construct)')
+            continue
+
+        def sig(outs):
+            out = set()
+            for o in outs:
+                conds = tuple(sorted('%r=%s' % (s_, a_) for (t_, a_, s_) in o.notes if isinstance(s_, Atom) and 'x:' in repr(s_)))
+                out.add((o.kind, repr(o.value), conds))
+            return out
+        ok = sig(o1) == sig(o2)
+        res.ob('R7', name, '%s(x) = %s(x, 1)' % (name, name), ok, H.describe(o1)[:2])
+        if not ok:
+            res.violation('R7', 'function:%s:default-significance' % name, m.where(f),
+                          '%s with the significance omitted differs from %s(x, 1): %s vs %s - the adjacent integer on the documented side is '
+                          'the multiple of 1' % (name, name, sorted(sig(o1) - sig(o2))[:2], sorted(sig(o2) - sig(o1))[:2]), func=f.name)
     # HEX2DEC: the text goes unchanged into int(., 16)
     m, f = model.registered('HEX2DEC')
     outs = H.run_function(model, H.registry_func(model, 'HEX2DEC'), lambda: [Sym('str', 'H')])
